@@ -125,31 +125,12 @@ impl SearchAlgorithm {
                 weight_factor: Some(Cost::ZERO),
             }
             .run_edge_oriented(src_id, dst_id_opt, query, direction, search_instance),
-            SearchAlgorithm::AStarAlgorithm { weight_factor } => {
-                let search_result = a_star_algorithm::run_a_star_edge_oriented(
-                    src_id,
-                    dst_id_opt,
-                    direction,
-                    *weight_factor,
-                    search_instance,
-                )?;
-                let routes = match dst_id_opt {
-                    None => vec![],
-                    Some(dst_id) => {
-                        let route = backtrack::edge_oriented_route(
-                            src_id,
-                            dst_id,
-                            &search_result.tree,
-                            search_instance.directed_graph.clone(),
-                        )?;
-                        vec![route]
-                    }
-                };
-                Ok(SearchAlgorithmResult {
-                    trees: vec![search_result.tree],
-                    routes,
-                    iterations: search_result.iterations,
-                })
+            // the vertex-keyed tree of a_star_algorithm::run_a_star_edge_oriented cannot represent a
+            // route that passes the destination edge's head (or the origin edge's tail) before the
+            // end, so its backtracked route could miss the origin or destination edge. build the
+            // route from the vertex-oriented result like the k-shortest-path algorithms do.
+            SearchAlgorithm::AStarAlgorithm { weight_factor: _ } => {
+                run_edge_oriented(src_id, dst_id_opt, query, direction, self, search_instance)
             }
             SearchAlgorithm::KspSingleVia {
                 k: _,
